@@ -515,6 +515,7 @@ pub fn run_c08(rep: &mut Report, thorough: bool) {
     interleavings(&s, rep, thorough);
     structured_pairs(&s.cfg, rep);
     context_switch(&s.cfg, rep);
+    neighbour_probe(&s.cfg, rep);
     {
         // depth-2 histories over the base corpus and the L2-L4 set, process-level differential
         let mut fr: Vec<crate::props::pairs::PFrame> = crate::props::pairs::l2l4_frames();
@@ -609,6 +610,108 @@ pub fn context_switch(cfg: &Cfg, rep: &mut Report) {
     }
     rep.sink.count("frames", n);
     rep.stage("context-switch", "every datagram payload of the corpus x 3 orders of 6 contexts (per IP version: two ports of one destination address and another address) in one process, each reply compared with the reply from a fresh process", n, t0);
+}
+
+/// Neighbour probes: one accepted first request on flow X (every TCP payload of the corpus, the
+/// >= 256-byte STUN requests with CHANGE-REQUEST flags), then ONE data segment on a neighbouring
+/// flow Y (destination port +-1, source port +-1, swapped ports, both +1, sibling address) with a
+/// wrong acknowledgement, with Y's own valid one and with X's: each probe must be answered
+/// exactly as a fresh process answers it (nothing X did may open, bind or pre-validate Y).
+pub fn neighbour_probe(cfg: &Cfg, rep: &mut Report) {
+    let t0 = std::time::Instant::now();
+    let mut firsts: Vec<(String, Vec<u8>)> = payloads().into_iter().filter(|p| p.via != Via::UdpOnly).map(|p| (p.name.to_string(), p.bytes)).collect();
+    for (n, fl) in [("stun-big-change-port", 2u8), ("stun-big-change-ip", 4), ("stun-big-change-both", 6), ("stun-big-plain", 0)] {
+        let body = [stun_attr(0x8022, &[b'x'; 244]), stun_attr(3, &[0, 0, 0, fl])].concat();
+        firsts.push((n.to_string(), stun_magic(&body, &ID12)));
+    }
+    let mut scen: Vec<(Flow, Flow, &'static str)> = Vec::new();
+    for v6 in [false, true] {
+        let x = flow(v6, 40000, 80);
+        let mk = |cp: u16, sp: u16| flow(v6, cp, sp);
+        scen.push((x.clone(), mk(40000, 81), "dport+1"));
+        scen.push((x.clone(), mk(40000, 79), "dport-1"));
+        scen.push((x.clone(), mk(40001, 80), "sport+1"));
+        scen.push((x.clone(), mk(39999, 80), "sport-1"));
+        scen.push((x.clone(), mk(40001, 81), "both+1"));
+        scen.push((x.clone(), mk(80, 40000), "swapped"));
+        let mut y = x.clone();
+        y.sip = if v6 { srv6b() } else { srv4b() };
+        scen.push((x.clone(), y, "sibling-address"));
+        let mut z = x.clone();
+        z.cip = if v6 { cli6b() } else { cli4b() };
+        scen.push((x.clone(), z, "other-client"));
+    }
+    let all: Vec<Flow> = scen.iter().flat_map(|s| [s.0.clone(), s.1.clone()]).collect();
+    let ck = match learn_cookies(cfg, &all) {
+        Ok(c) => c,
+        Err(e) => {
+            rep.sink.machinery_errors.push(e);
+            return;
+        }
+    };
+    // fresh-process answers of the probes
+    let probe = |sc: &(Flow, Flow, &'static str), k: u64| -> Vec<u8> {
+        let cx = ck.get(&key_of(&sc.0)).copied().unwrap_or(0).wrapping_add(1);
+        let cy = ck.get(&key_of(&sc.1)).copied().unwrap_or(0).wrapping_add(1);
+        let ack = [0u32, cy, cx, cy.wrapping_add(1)][k as usize];
+        sc.1.tcp(7000, ack, F_PSH | F_ACK, HTTP_REQ)
+    };
+    let np = 4u64;
+    let mut fresh: std::collections::HashMap<(usize, u64), String> = std::collections::HashMap::new();
+    {
+        let mut d = match crate::driver::Driver::spawn(cfg) {
+            Ok(d) => d,
+            Err(e) => {
+                rep.sink.machinery_errors.push(e);
+                return;
+            }
+        };
+        for (si, sc) in scen.iter().enumerate() {
+            for k in 0..np {
+                let o = d.exec(&[Cmd::Reset, Cmd::Frame(probe(sc, k))]).map(|v| v[1].clone()).unwrap_or_default();
+                fresh.insert((si, k), crate::mask::canon_reply(o.reply.as_deref()));
+            }
+        }
+    }
+    let dims = [firsts.len() as u64, scen.len() as u64, np];
+    let total: u64 = dims.iter().product();
+    let opts = RunOpts::new("neighbour-probe").stateful().chunk(64).no_monitor();
+    let cfgc = cfg.clone();
+    engine::run(
+        cfg,
+        total,
+        &opts,
+        |i| {
+            let d = engine::unrank(i, &dims);
+            let sc = &scen[d[1] as usize];
+            let cx = ck.get(&key_of(&sc.0)).copied().unwrap_or(0).wrapping_add(1);
+            vec![Cmd::Frame(sc.0.tcp(1000, cx, F_PSH | F_ACK, &firsts[d[0] as usize].1)), Cmd::Frame(probe(sc, d[2]))]
+        },
+        |it: &Item, sk: &mut Sink| {
+            sk.count("frames", 2);
+            let d = engine::unrank(it.idx, &dims);
+            let sc = &scen[d[1] as usize];
+            if ck.get(&key_of(&sc.0)) == ck.get(&key_of(&sc.1)) {
+                // equal cookies: the pair is reported by the structured-pairs stage under its own key
+                return;
+            }
+            let got = crate::mask::canon_reply(it.outs[2].reply.as_deref());
+            let want = &fresh[&(d[1] as usize, d[2])];
+            if &got != want {
+                sk.violation(Violation {
+                    prop: "C08".into(),
+                    key: format!("neighbour-interference:{}:{}", firsts[d[0] as usize].0, sc.2),
+                    what: format!("after '{}' was accepted on {}:{}>{}:{}, a data segment (probe {}) on the {} flow is answered {} instead of {} (fresh process)", firsts[d[0] as usize].0, sc.0.cip, sc.0.cport, sc.0.sip, sc.0.sport, d[2], sc.2, &got[..got.len().min(100)], &want[..want.len().min(100)]),
+                    cfg: cfgc.clone(),
+                    cmds: it.cmds.to_vec(),
+                    idx: it.idx,
+                    stage: "neighbour-probe".into(),
+                });
+            }
+        },
+        &mut rep.sink,
+    );
+    rep.stage("neighbour-probe", "every TCP payload of the corpus + 4 >= 256-byte STUN requests (CHANGE-REQUEST flags 0 / port / address / both) accepted on flow X x 8 neighbouring flows (destination port +-1, source port +-1, both, swapped, sibling address, other client) x {v4,v6} x probe acknowledgement {0, own cookie + 1, X's cookie + 1, own + 2}: each probe answered as by a fresh process", total, t0);
 }
 
 /// Pairs of distinct flows that a weakened cookie function would typically confuse: swapped
